@@ -15,7 +15,10 @@ from ..world import World, digest_obj, stamp, walk_files, write_file
 
 TAMPERS = ["truncate", "append", "rewrite-same-len", "rewrite-other-len", "replace-by-rename",
            "replace-by-rename-same-len-same-mtime"]
-QUERIES = ["check", "exist1", "exist2", "hcheck", "checkout", "add-verify-good", "add-verify-bad"]
+QUERIES = ["check", "exist1", "exist2", "hcheck", "checkout", "add-verify-good", "add-verify-bad",
+           "add-verify-good-force", "add-verify-bad-force"]
+# a legacy (md5-dos2unix) store holding a CRLF text object that spans two hashing chunks
+BIG_TEXT = b"line\r\n" * 174770 + b"tail of the text\r\n"
 
 
 def tamper(path, how, keep_protected=False, near=False):
@@ -60,6 +63,22 @@ def setup(w, kind, statemode, target):
     state = None
     if statemode == "warm":
         state = State(root_dir=w.root, tmp_dir=w.p("tmp"))
+    if target == "legacy":
+        odb = make_odb(kind, w.p("cache"), hash_name="md5-dos2unix", **({"state": state} if state else {}))
+        src = w.mkdir("src")
+        oid = ref.md5(BIG_TEXT.replace(b"\r\n", b"\n"))
+        good = os.path.join(src, "big")
+        write_file(good, BIG_TEXT)
+        odb.add(good, LFS, oid)
+        py = os.path.join(src, "y")
+        write_file(py, CONTENTS["y"])
+        odb.add(py, LFS, ref.digest("md5-dos2unix", CONTENTS["y"]))
+        if statemode == "cold":
+            state = State(root_dir=w.root, tmp_dir=w.p("tmp"))
+            odb.state = state
+        bad = os.path.join(src, "bad")
+        write_file(bad, BIG_TEXT + b"one more line\r\n")
+        return odb, state, oid, good, bad
     odb = make_odb(kind, w.p("cache"), **({"state": state} if state else {}))
     src = w.mkdir("src")
     # tree A and its files, added through the real add()
@@ -95,7 +114,10 @@ def run_seq(seq, kind, statemode, target, keep_protected=False, near=False):
             good_bytes = open(good, "rb").read()
             path = odb.oid_to_path(oid)
             model = "intact"
-            tree_obj = load(odb, hi(tree_oid("A")))  # loaded while everything is intact
+            legacy = target == "legacy"
+            oid_y = ref.digest("md5-dos2unix", CONTENTS["y"]) if legacy else MD5["y"]
+            others = {oid_y: CONTENTS["y"]} if legacy else {MD5[c]: CONTENTS[c] for c in set(TREES["A"].values())}
+            tree_obj = None if legacy else load(odb, hi(tree_oid("A")))  # loaded while everything is intact
             for i, op in enumerate(seq):
                 where = f"step {i} {op} of {seq} kind={kind} state={statemode} target={target}"
                 if op in TAMPERS:
@@ -119,11 +141,13 @@ def run_seq(seq, kind, statemode, target, keep_protected=False, near=False):
                     except FileNotFoundError:
                         res = "notfound"
                 elif op in ("exist1", "exist2"):
-                    ids = [oid] if op == "exist1" else [oid, MD5["y"]]
+                    ids = [oid] if op == "exist1" else [oid, oid_y]
                     got = odb.oids_exist(ids)
                     res = "accepted" if oid in got else "rejected"
-                    if op == "exist2" and MD5["y"] not in got:
+                    if op == "exist2" and oid_y not in got:
                         viol.append(("intact-object-reported-missing", f"y at {where}"))
+                elif op == "hcheck" and legacy:
+                    continue
                 elif op == "hcheck":
                     try:
                         hcheck(odb, tree_obj)
@@ -135,7 +159,7 @@ def run_seq(seq, kind, statemode, target, keep_protected=False, near=False):
                 elif op == "checkout":
                     out = w.p(f"out{i}")
                     try:
-                        if target == "file":
+                        if target in ("file", "legacy"):
                             obj = odb.get(oid)
                             checkout(out, LFS, obj, odb, force=True)
                         else:
@@ -145,19 +169,20 @@ def run_seq(seq, kind, statemode, target, keep_protected=False, near=False):
                         res = "rejected"
                     got = walk_files(out)
                     wrong = [k for k, v in got.items()
-                             if isinstance(v, bytes) and v not in {CONTENTS[c] for c in TREES["A"].values()}]
+                             if isinstance(v, bytes) and v not in ({CONTENTS[c] for c in TREES["A"].values()} | {good_bytes})]
                     trusted = keep_protected and kind == "local" and model == "corrupt"
                     if wrong and not trusted:
                         viol.append(("checkout-materialised-corrupt-bytes", f"{wrong} at {where}"))
-                    if target == "file" and model != "intact" and got and not trusted:
+                    if target in ("file", "legacy") and model != "intact" and got and not trusted:
                         viol.append(("checkout-materialised-a-rejected-object", f"{got} at {where}"))
-                    if target == "file" and model == "intact" and got != {"": good_bytes}:
+                    if target in ("file", "legacy") and model == "intact" and got != {"": good_bytes}:
                         viol.append(("checkout-of-intact-object-failed", f"{got} at {where}"))
-                elif op in ("add-verify-good", "add-verify-bad"):
-                    srcp = good if op.endswith("good") else bad
+                elif op.startswith("add-verify-"):
+                    srcp = good if "good" in op else bad
                     errs = []
                     try:
-                        odb.add(srcp, LFS, oid, verify=True, on_error=lambda o, e: errs.append((o, e)))
+                        odb.add(srcp, LFS, oid, verify=True, on_error=lambda o, e: errs.append((o, e)),
+                                check_exists=not op.endswith("-force"))
                         res = "added"
                     except Exception as e:  # noqa: BLE001
                         res = f"raised-{type(e).__name__}"
@@ -169,7 +194,7 @@ def run_seq(seq, kind, statemode, target, keep_protected=False, near=False):
                         continue
                     if now is not None and now != good_bytes:
                         viol.append(("verify-retained-mismatching-object", f"{now[:30]!r} at {where}"))
-                    if op.endswith("good"):
+                    if "good" in op:
                         if now != good_bytes:
                             viol.append(("verified-add-of-good-source-did-not-store-it", f"{res} at {where}"))
                         model = "intact" if now == good_bytes else ("absent" if now is None else "corrupt")
@@ -204,11 +229,13 @@ def run_seq(seq, kind, statemode, target, keep_protected=False, near=False):
                 elif model == "absent":
                     if res == "accepted" and claims_integrity:
                         viol.append((f"absent-object-accepted/{op}", where))
+                if not os.path.exists(path):
+                    model = "absent"
                 # the other objects of the store are never harmed
-                for c in set(TREES["A"].values()):
-                    p2 = odb.oid_to_path(MD5[c])
-                    if MD5[c] != oid and (not os.path.exists(p2) or open(p2, "rb").read() != CONTENTS[c]):
-                        viol.append(("bystander-object-damaged", f"{c} at {where}"))
+                for o2, data2 in others.items():
+                    p2 = odb.oid_to_path(o2)
+                    if o2 != oid and (not os.path.exists(p2) or open(p2, "rb").read() != data2):
+                        viol.append(("bystander-object-damaged", f"{o2} at {where}"))
         finally:
             if state is not None:
                 state.close()
@@ -242,6 +269,23 @@ def run_case(case):
                     res["viol"].append((sig, detail, {"seq": list(seq), "kind": case["kind"],
                                                       "state": case["state"], "target": target,
                                                       "keep": case["keep"], "near": case.get("near", False)}))
+    if first in TAMPERS and not case["keep"]:
+        for q in QUERIES:
+            for seq in ((first, q), (q, first, q)):
+                viol, counted = run_seq(seq, case["kind"], case["state"], "legacy", False, case.get("near", False))
+                res["n"] += 1
+                res["trans"] += len(seq)
+                res["vac"]["legacy_big_text_runs"] = res["vac"].get("legacy_big_text_runs", 0) + 1
+                d = digest_obj((seq, "legacy", case["kind"], case["state"], case.get("near", False)))
+                res["states"].append(d)
+                res["nontrivial"].add(d)
+                res["outcomes"].add(repr(sorted(v[0] for v in viol)))
+                for sig, detail in viol:
+                    if sig not in sigs:
+                        sigs.add(sig)
+                        res["viol"].append((sig, detail, {"seq": list(seq), "kind": case["kind"],
+                                                          "state": case["state"], "target": "legacy",
+                                                          "keep": False, "near": case.get("near", False)}))
     res["outcomes"] = sorted(res["outcomes"])
     res["nontrivial"] = sorted(res["nontrivial"])
     res["sample"] = {"first_op": first, "depth": case["depth"], "kind": case["kind"], "state": case["state"]}
@@ -258,9 +302,10 @@ def run(ctx):
     ops = TAMPERS + QUERIES
     ctx.rule = (
         f"E2: every sequence of length {depth} over 6 tamper patterns (truncate, append, rewrite same / other "
-        "length, replace by rename, replace by rename keeping length and mtime; each followed by chmod 0o644 and a logical-clock mtime) and 7 queries (check, "
+        "length, replace by rename, replace by rename keeping length and mtime; each followed by chmod 0o644 and a logical-clock mtime) and 9 queries (check, "
         "oids_exist with 1 and 2 ids, hashfile.check(tree), checkout, add(verify) from a good and from a corrupt "
-        "source) on a file object and on a directory object x state {none, cold, warm (entry from before the "
+        "source, each also with check_exists=False) on a file object and on a directory object (and, sequences "
+        "tamper-query / query-tamper-query, on a 1 MiB+ CRLF text object of a legacy md5-dos2unix store) x state {none, cold, warm (entry from before the "
         "tampering)} x both store classes; thorough adds the variants that keep 0o444 (outside the claim, only "
         "counted); non-trivial = sequence containing a tamper"
     )
@@ -272,7 +317,7 @@ def run(ctx):
         "checkout of an already loaded directory listing does not need the stored directory object (by design)",
         "tampering that keeps the 0o444 mode on a local store is trusted by design and only counted",
     ]
-    ctx.require("rejections", "acceptances")
+    ctx.require("rejections", "acceptances", "legacy_big_text_runs")
     cs = []
     keeps = [False, True] if ctx.tier == "thorough" else [False]
     for kind in ("local", "base"):
